@@ -707,10 +707,12 @@ def run_conc(env: Env, rl: HotReloader, op: dict) -> list:
     def wait_for(i: int) -> None:
         while True:
             try:
-                j, what = note.get(timeout=30)
+                j, what = note.get(timeout=6)
             except queue.Empty:
-                raise lib.CheckError("overlapping checks: a check neither reached its next source call nor finished "
-                                     "(blocked on the reloader lock while another check is inside a source call?)")
+                for sem in sems:            # let the parked checks go so that the threads end
+                    sem.release()
+                raise OverlapStuck("overlapping checks: a check neither reached its next source call nor finished "
+                                   "(blocked on the reloader lock while another check is inside a source call?)")
             state[j] = what
             if j == i:
                 return
@@ -1176,10 +1178,25 @@ def evaluate_batch(run: lib.Run, batch: list[tuple[dict, list, list, list]], tal
     return verdicts
 
 
+class OverlapStuck(lib.CheckError):
+    """two overlapping checks could not be interleaved at their source calls: one of them waits for the reloader lock while the other
+    sits inside etag()/load() — the lock is held across a source call, which the model's four atomic blocks exclude"""
+
+
 def run_cases(run: lib.Run, tally: Tally, cases, tmpdir: str) -> None:
     batch = []
+    stuck = 0
     for case in cases:
-        init_ops, ops, impl = execute(case, tmpdir)
+        if stuck and any(e.get("e") == "conc" for e in case["history"]):
+            continue                 # the overlap scheduler cannot drive this code: skip further overlapping pairs (counted below)
+        try:
+            init_ops, ops, impl = execute(case, tmpdir)
+        except OverlapStuck as e:
+            stuck += 1
+            run.count("overlap:not-interleavable")
+            run.disagreements.append({"case": case, "bad": [], "disagree": True, "f9": False, "ops": [], "impl": [], "model": [], "spec": {},
+                                      "diff": str(e), "lock_violations": ["reloader lock held across a source call"]})
+            continue
         batch.append((case, init_ops, ops, impl))
         if len(batch) >= 4000:
             evaluate_batch(run, batch, tally)
